@@ -31,7 +31,7 @@ def gen_items(rng, big=False):
         size = rng.choice(D.DISK_SIZES + [rng.randint(0, 6000)])
         if big and rng.random() < 0.5:
             size = rng.choice([312000, 320280, 320281, 318240, 330000, 160000, 2040 * 79])
-        items.append(("file", name, T.content_for(rng, size) if size < 50000 else bytes([rng.getrandbits(8)]) * size))
+        items.append(("file", name, T.content_for(rng, size) if size < 50000 else (rng.randbytes(size) if rng.random() < 0.7 else bytes([rng.getrandbits(8)]) * size)))
     if rng.random() < 0.12:
         import diskengine as E
         items.insert(rng.randrange(len(items) + 1), ("file", rng.choice(E.TOO_LONG), T.content_for(rng, rng.choice([0, 1, 300]))))
